@@ -561,6 +561,22 @@ func (s *Sim) StaleQuery(b, c int, mode any) {
 }
 
 // ViewSet returns the installed family; alt swaps the byN view for its replacement under the same name.
+// ViewSetVariant: 0 = the base set, 1 = byN replaced by another map function under the same name, 2 = the base
+// set with only reduce functions changed (tags: _sum -> _count, all: _count -> none).
+func ViewSetVariant(v int) []ViewDef {
+	switch v % 3 {
+	case 1:
+		return ViewSet(true)
+	case 2:
+		tc := viewTags
+		tc.Reduce = "_count"
+		an := viewAll
+		an.Reduce = ""
+		return []ViewDef{viewByN, tc, viewBySeq, an}
+	}
+	return ViewSet(false)
+}
+
 func ViewSet(alt bool) []ViewDef {
 	if alt {
 		return []ViewDef{viewByT, viewTags, viewBySeq, viewAll}
